@@ -3,6 +3,7 @@
      <query> ws <0|1> jobs <n> {J <val> (D0 | D1 <val>) (P0|P1)}*n
              actors <m> {ops <k> {op}*k}*m sched <len> <actor>*len
      op    := project | init <val> | set <val> S<hexkey> <val> | get <val> | len
+            | assign <val> <val>      (job state point, then the mapping: must be an object)
      query := trace   every step of the schedule:  actor|kind|path[|path2]|result[|payload] ;…
             | final   the workspace tree afterwards: path=D / path=F:<content>, sorted ;…
             | exits   per actor: ok|exc:<why> then the values handed back (doc:<val> / count:<n>)
@@ -132,6 +133,13 @@ def parseOps : Nat → List String → Option (List (Op JVal JVal) × List Strin
       let (ops, ts) ← parseOps n ts
       pure (.docSet v key x :: ops, ts)
     | [] => none
+  | n+1, "assign" :: ts => do
+    let (v, ts) ← parseValue ts
+    match parseValue ts with
+    | some (.obj d, ts) =>
+      let (ops, ts) ← parseOps n ts
+      pure (.docAssign v d :: ops, ts)
+    | _ => none
   | _, _ => none
 
 def parseActors : Nat → List String → Option (List (AState JVal JVal) × List String)
